@@ -7,9 +7,29 @@ namespace PySMT.Opt
 /-- The only assumption on the solver: on every call it returns a model of the user's assertions
     (`A`) and of the constraints it was given iff one exists (which one is up to the solver and
     may differ from call to call). -/
-def OracleSpec {M : Type} (A : M → Prop) (obj : Nat → M → Int) (o : Oracle M) : Prop :=
-  ∀ n cs, (∀ m, o n cs = some m → A m ∧ ∀ c ∈ cs, c.holds obj m = true) ∧
-          (o n cs = none → ∀ m, A m → ¬ ∀ c ∈ cs, c.holds obj m = true)
+def OracleSpec {M : Type} (A : M → Prop) (val : Nat → M → Val) (o : Oracle M) : Prop :=
+  ∀ n cs, (∀ m, o n cs = some m → A m ∧ ∀ c ∈ cs, c.holds val m = true) ∧
+          (o n cs = none → ∀ m, A m → ¬ ∀ c ∈ cs, c.holds val m = true)
+
+/-- In every model of the assertions the `gi`-th goal term has the sort of the goal, and `obj` reads
+    its value the way `search_is_sat` does (`constant_value()`; `bv_signed_value()` for a signed
+    goal).  Both follow from typing; they replace the earlier hypothesis "the objective value is
+    representable" (`castOk`), which is now a consequence (`GoalReads.castOk`). -/
+def GoalReads {M : Type} (A : M → Prop) (val : Nat → M → Val) (obj : Nat → M → Int) (g : Goal) (gi : Nat) : Prop :=
+  ∀ m, A m → ValTyped g.dom (val gi m) ∧ obj gi m = readObj g.dom (val gi m)
+
+/-- the same for every element of `M` (all models are well-sorted), used by the Pareto theorems -/
+def GoalReadsAll {M : Type} (val : Nat → M → Val) (obj : Nat → M → Int) (g : Goal) (gi : Nat) : Prop :=
+  ∀ m, ValTyped g.dom (val gi m) ∧ obj gi m = readObj g.dom (val gi m)
+
+theorem GoalReadsAll.toReads {M : Type} {A : M → Prop} {val : Nat → M → Val} {obj : Nat → M → Int} {g : Goal}
+    {gi : Nat} (h : GoalReadsAll val obj g gi) : GoalReads A val obj g gi := fun m _ => h m
+
+theorem GoalReads.castOk {M : Type} {A : M → Prop} {val : Nat → M → Val} {obj : Nat → M → Int} {g : Goal}
+    {gi : Nat} (h : GoalReads A val obj g gi) : ∀ m, A m → castOk g.dom (obj gi m) = true := by
+  intro m hm
+  obtain ⟨h1, h2⟩ := h m hm
+  rw [h2]; exact castOk_readObj _ _ h1
 
 /-- `extra_assumption` is only used by the assumption-based mix-in -/
 def effExtra : Mixin → List Constraint → List Constraint
@@ -17,12 +37,12 @@ def effExtra : Mixin → List Constraint → List Constraint
   | .incr, _ => []
 
 section
-variable {M : Type} (A : M → Prop) (obj : Nat → M → Int)
+variable {M : Type} (A : M → Prop) (val : Nat → M → Val) (obj : Nat → M → Int)
 
 /-- feasible set of a routine entered with the constraints `base` on the solver's stack (beyond the
     user's assertions `A`) and the assumptions `ex` -/
 def Feas (base ex : List Constraint) (m : M) : Prop :=
-  A m ∧ (∀ c ∈ base, c.holds obj m = true) ∧ (∀ c ∈ ex, c.holds obj m = true)
+  A m ∧ (∀ c ∈ base, c.holds val m = true) ∧ (∀ c ∈ ex, c.holds val m = true)
 
 variable (g : Goal) (gi : Nat) (base ex : List Constraint) (marks0 : List Nat) (bad0 : Bool)
 
@@ -31,16 +51,16 @@ variable (g : Goal) (gi : Nat) (base ex : List Constraint) (marks0 : List Nat) (
 def SInv (t : Int) (s : Solver M) : Prop :=
   s.marks = base.length :: marks0 ∧ s.bad = bad0 ∧
   ∃ added, s.stack = base ++ added ∧
-    ∀ c ∈ added, ∀ m, Feas A obj base ex m → sg g (obj gi m) < sg g t → c.holds obj m = true
+    ∀ c ∈ added, ∀ m, Feas A val base ex m → sg g (obj gi m) < sg g t → c.holds val m = true
 
-variable {A obj g gi base ex marks0 bad0}
+variable {A val obj g gi base ex marks0 bad0}
 
-theorem SInv.mono {t t' : Int} {s : Solver M} (h : SInv A obj g gi base ex marks0 bad0 t s)
-    (ht : sg g t' ≤ sg g t) : SInv A obj g gi base ex marks0 bad0 t' s := by
+theorem SInv.mono {t t' : Int} {s : Solver M} (h : SInv A val obj g gi base ex marks0 bad0 t s)
+    (ht : sg g t' ≤ sg g t) : SInv A val obj g gi base ex marks0 bad0 t' s := by
   obtain ⟨h1, h2, added, h3, h4⟩ := h
   exact ⟨h1, h2, added, h3, fun c hc m hm hlt => h4 c hc m hm (by omega)⟩
 
-theorem SInv.pop {t : Int} {s : Solver M} (h : SInv A obj g gi base ex marks0 bad0 t s) :
+theorem SInv.pop {t : Int} {s : Solver M} (h : SInv A val obj g gi base ex marks0 bad0 t s) :
     s.pop.stack = base ∧ s.pop.marks = marks0 ∧ s.pop.bad = bad0 := by
   obtain ⟨h1, h2, added, h3, _⟩ := h
   unfold Solver.pop
@@ -49,12 +69,12 @@ theorem SInv.pop {t : Int} {s : Solver M} (h : SInv A obj g gi base ex marks0 ba
 variable {o : Oracle M}
 
 /-- the first, cut-free call of `_optimization_check_progress` -/
-theorem check_first (hO : OracleSpec A obj o) (mx : Mixin) (strat : Strat) (extra : List Constraint)
+theorem check_first (hO : OracleSpec A val o) (mx : Mixin) (strat : Strat) (extra : List Constraint)
     (hex : ex = effExtra mx extra) (s : Solver M)
     (h1 : s.marks = base.length :: marks0) (h2 : s.bad = bad0) (h3 : s.stack = base) :
-    (∀ m, (checkProgress o mx strat extra none s).1 = some m → Feas A obj base ex m) ∧
-    ((checkProgress o mx strat extra none s).1 = none → ∀ m, ¬ Feas A obj base ex m) ∧
-    (∀ t, SInv A obj g gi base ex marks0 bad0 t (checkProgress o mx strat extra none s).2) := by
+    (∀ m, (checkProgress o mx strat extra none s).1 = some m → Feas A val base ex m) ∧
+    ((checkProgress o mx strat extra none s).1 = none → ∀ m, ¬ Feas A val base ex m) ∧
+    (∀ t, SInv A val obj g gi base ex marks0 bad0 t (checkProgress o mx strat extra none s).2) := by
   cases mx <;> cases strat <;>
     simp only [checkProgress, Solver.solve, Solver.addAll, Solver.push, Solver.pop, Option.toList,
       List.foldl, List.append_nil, effExtra] at hex ⊢ <;> subst hex
@@ -80,25 +100,26 @@ theorem check_first (hO : OracleSpec A obj o) (mx : Mixin) (strat : Strat) (extr
 theorem take_length_append {α : Type} (l1 l2 : List α) : (l1 ++ l2).take l1.length = l1 := by simp
 
 /-- a call of `_optimization_check_progress` with the strict cut at `b` -/
-theorem check_cut (hO : OracleSpec A obj o) (mx : Mixin) (strat : Strat) (extra : List Constraint)
-    (hex : ex = effExtra mx extra) (d : Dom) (t b : Int) (s : Solver M)
-    (hS : SInv A obj g gi base ex marks0 bad0 t s) (hb : sg g b ≤ sg g t) :
-    (∀ m, (checkProgress o mx strat extra (some (.atom ⟨gi, d, strictCmp g, b⟩)) s).1 = some m →
-        Feas A obj base ex m ∧ sg g (obj gi m) < sg g b) ∧
-    ((checkProgress o mx strat extra (some (.atom ⟨gi, d, strictCmp g, b⟩)) s).1 = none →
-        ∀ m, Feas A obj base ex m → ¬ sg g (obj gi m) < sg g b) ∧
+theorem check_cut (hO : OracleSpec A val o) (mx : Mixin) (strat : Strat) (extra : List Constraint)
+    (hex : ex = effExtra mx extra) (hG : GoalReads A val obj g gi) (t b : Int) (s : Solver M)
+    (hS : SInv A val obj g gi base ex marks0 bad0 t s) (hb : sg g b ≤ sg g t) (hcb : castOk g.dom b = true) :
+    (∀ m, (checkProgress o mx strat extra (some (.atom ⟨gi, g.dom, strictCmp g, b⟩)) s).1 = some m →
+        Feas A val base ex m ∧ sg g (obj gi m) < sg g b) ∧
+    ((checkProgress o mx strat extra (some (.atom ⟨gi, g.dom, strictCmp g, b⟩)) s).1 = none →
+        ∀ m, Feas A val base ex m → ¬ sg g (obj gi m) < sg g b) ∧
     (∀ t', sg g t' ≤ sg g b →
-        SInv A obj g gi base ex marks0 bad0 t' (checkProgress o mx strat extra (some (.atom ⟨gi, d, strictCmp g, b⟩)) s).2) ∧
+        SInv A val obj g gi base ex marks0 bad0 t' (checkProgress o mx strat extra (some (.atom ⟨gi, g.dom, strictCmp g, b⟩)) s).2) ∧
     ((strat = .linear → b = t) →
-        SInv A obj g gi base ex marks0 bad0 t (checkProgress o mx strat extra (some (.atom ⟨gi, d, strictCmp g, b⟩)) s).2) := by
+        SInv A val obj g gi base ex marks0 bad0 t (checkProgress o mx strat extra (some (.atom ⟨gi, g.dom, strictCmp g, b⟩)) s).2) := by
   obtain ⟨h1, h2, added, h3, h4⟩ := hS
-  have hcut : ∀ m, (Constraint.atom ⟨gi, d, strictCmp g, b⟩).holds obj m = true ↔ sg g (obj gi m) < sg g b :=
-    fun m => strict_atom_holds obj m g gi d b
+  have hcut : ∀ m, A m → ((Constraint.atom ⟨gi, g.dom, strictCmp g, b⟩).holds val m = true ↔
+      sg g (obj gi m) < sg g b) :=
+    fun m hm => strict_atom_holds val obj m g gi b (hG m hm).1 (hG m hm).2 hcb
   -- what the oracle is asked, in all four variants: `base ++ added' ++ ex ++ [cut]` up to order
   have key : ∀ (n : Nat) (cs : List Constraint),
-      (∀ c, c ∈ cs ↔ (c ∈ base ∨ c ∈ added ∨ c ∈ ex ∨ c = Constraint.atom ⟨gi, d, strictCmp g, b⟩)) →
-      (∀ m, o n cs = some m → Feas A obj base ex m ∧ sg g (obj gi m) < sg g b) ∧
-      (o n cs = none → ∀ m, Feas A obj base ex m → ¬ sg g (obj gi m) < sg g b) := by
+      (∀ c, c ∈ cs ↔ (c ∈ base ∨ c ∈ added ∨ c ∈ ex ∨ c = Constraint.atom ⟨gi, g.dom, strictCmp g, b⟩)) →
+      (∀ m, o n cs = some m → Feas A val base ex m ∧ sg g (obj gi m) < sg g b) ∧
+      (o n cs = none → ∀ m, Feas A val base ex m → ¬ sg g (obj gi m) < sg g b) := by
     intro n cs hcs
     refine ⟨?_, ?_⟩
     · intro m hm
@@ -106,7 +127,7 @@ theorem check_cut (hO : OracleSpec A obj o) (mx : Mixin) (strat : Strat) (extra 
       refine ⟨⟨ha, ?_, ?_⟩, ?_⟩
       · intro c hc'; exact hc c ((hcs c).2 (Or.inl hc'))
       · intro c hc'; exact hc c ((hcs c).2 (Or.inr (Or.inr (Or.inl hc'))))
-      · exact (hcut m).1 (hc _ ((hcs _).2 (Or.inr (Or.inr (Or.inr rfl)))))
+      · exact (hcut m ha).1 (hc _ ((hcs _).2 (Or.inr (Or.inr (Or.inr rfl)))))
     · intro hn m hm hlt
       refine (hO n cs).2 hn m hm.1 ?_
       intro c hc
@@ -114,26 +135,26 @@ theorem check_cut (hO : OracleSpec A obj o) (mx : Mixin) (strat : Strat) (extra 
       · exact hm.2.1 c hc
       · exact h4 c hc m hm (by omega)
       · exact hm.2.2 c hc
-      · subst hc; exact (hcut m).2 hlt
+      · subst hc; exact (hcut m hm.1).2 hlt
   have keepInv : ∀ t', sg g t' ≤ sg g t → ∀ s' : Solver M, s'.marks = s.marks → s'.bad = s.bad → s'.stack = s.stack →
-      SInv A obj g gi base ex marks0 bad0 t' s' := by
+      SInv A val obj g gi base ex marks0 bad0 t' s' := by
     intro t' ht' s' e1 e2 e3
     exact ⟨by rw [e1, h1], by rw [e2, h2], added, by rw [e3, h3], fun c hc m hm hlt => h4 c hc m hm (by omega)⟩
   have growInv : ∀ t', sg g t' ≤ sg g b → ∀ s' : Solver M, s'.marks = s.marks → s'.bad = s.bad →
-      s'.stack = s.stack ++ [Constraint.atom ⟨gi, d, strictCmp g, b⟩] →
-      SInv A obj g gi base ex marks0 bad0 t' s' := by
+      s'.stack = s.stack ++ [Constraint.atom ⟨gi, g.dom, strictCmp g, b⟩] →
+      SInv A val obj g gi base ex marks0 bad0 t' s' := by
     intro t' ht' s' e1 e2 e3
-    refine ⟨by rw [e1, h1], by rw [e2, h2], added ++ [Constraint.atom ⟨gi, d, strictCmp g, b⟩],
+    refine ⟨by rw [e1, h1], by rw [e2, h2], added ++ [Constraint.atom ⟨gi, g.dom, strictCmp g, b⟩],
       by rw [e3, h3, List.append_assoc], ?_⟩
     intro c hc m hm hlt
     rcases List.mem_append.1 hc with hc | hc
     · exact h4 c hc m hm (by omega)
-    · have : c = Constraint.atom ⟨gi, d, strictCmp g, b⟩ := by simpa using hc
-      subst this; exact (hcut m).2 (by omega)
+    · have : c = Constraint.atom ⟨gi, g.dom, strictCmp g, b⟩ := by simpa using hc
+      subst this; exact (hcut m hm.1).2 (by omega)
   cases mx with
   | sua =>
     simp only [effExtra] at hex; subst hex
-    have hk := key s.calls (s.stack ++ (ex ++ [Constraint.atom ⟨gi, d, strictCmp g, b⟩])) (by
+    have hk := key s.calls (s.stack ++ (ex ++ [Constraint.atom ⟨gi, g.dom, strictCmp g, b⟩])) (by
       intro c; simp [h3])
     simp only [checkProgress, Solver.solve, Option.toList]
     exact ⟨hk.1, hk.2, fun t' ht' => keepInv t' (by omega) _ rfl rfl rfl, fun _ => keepInv t (by omega) _ rfl rfl rfl⟩
@@ -141,7 +162,7 @@ theorem check_cut (hO : OracleSpec A obj o) (mx : Mixin) (strat : Strat) (extra 
     simp only [effExtra] at hex; subst hex
     cases strat with
     | linear =>
-      have hk := key s.calls (s.stack ++ [Constraint.atom ⟨gi, d, strictCmp g, b⟩] ++ []) (by
+      have hk := key s.calls (s.stack ++ [Constraint.atom ⟨gi, g.dom, strictCmp g, b⟩] ++ []) (by
         intro c; simp [h3])
       simp only [checkProgress, Solver.solve, Solver.addAll, Solver.add, Option.toList, List.foldl]
       refine ⟨hk.1, hk.2, fun t' ht' => growInv t' ht' _ rfl rfl rfl, ?_⟩
@@ -150,7 +171,7 @@ theorem check_cut (hO : OracleSpec A obj o) (mx : Mixin) (strat : Strat) (extra 
       subst hbt
       exact growInv b (by omega) _ rfl rfl rfl
     | binary =>
-      have hk := key s.calls (s.stack ++ [Constraint.atom ⟨gi, d, strictCmp g, b⟩] ++ []) (by
+      have hk := key s.calls (s.stack ++ [Constraint.atom ⟨gi, g.dom, strictCmp g, b⟩] ++ []) (by
         intro c; simp [h3])
       simp only [checkProgress, Solver.solve, Solver.addAll, Solver.add, Solver.push, Solver.pop, Option.toList,
         List.foldl]
@@ -158,16 +179,16 @@ theorem check_cut (hO : OracleSpec A obj o) (mx : Mixin) (strat : Strat) (extra 
       · exact take_length_append _ _
       · exact take_length_append _ _
 
-variable (A obj g gi base ex marks0 bad0) in
+variable (A val obj g gi base ex marks0 bad0) in
 /-- invariant of the `while not current.empty()` loop after the first satisfiable step -/
 structure LInv (strat : Strat) (iv : Interval) (best : M) (s : Solver M) : Prop where
-  feas : Feas A obj base ex best
+  feas : Feas A val base ex best
   nearEq : near g iv = some (obj gi best)
-  farBound : ∀ f, far g iv = some f → ∀ m, Feas A obj base ex m → sg g f ≤ sg g (obj gi m)
+  farBound : ∀ f, far g iv = some f → ∀ m, Feas A val base ex m → sg g f ≤ sg g (obj gi m)
   farOk : ∀ f, far g iv = some f → FarOk g f
   farNone : far g iv = none → g.dom = .int
   piv : strat = .linear → iv.pivot = none
-  sinv : SInv A obj g gi base ex marks0 bad0 (obj gi best) s
+  sinv : SInv A val obj g gi base ex marks0 bad0 (obj gi best) s
 
 /-- one iteration makes progress: the distance between the bounds shrinks, or (unknown far bound)
     the best value improves or the far bound becomes known -/
@@ -188,13 +209,13 @@ theorem castOk_int (g : Goal) (h : g.dom = .int) (v : Int) : castOk g.dom v = tr
   rw [h]; rfl
 
 theorem cut_facts {strat : Strat} {iv : Interval} {best : M} {s : Solver M}
-    (hDom : ∀ m, A m → castOk g.dom (obj gi m) = true)
-    (hI : LInv A obj g gi base ex marks0 bad0 strat iv best s) (he : iv.empty = false) :
+    (hG : GoalReads A val obj g gi)
+    (hI : LInv A val obj g gi base ex marks0 bad0 strat iv best s) (he : iv.empty = false) :
     ∃ iv1 b, cutBound strat g iv = (iv1, some b) ∧ sg g b ≤ sg g (obj gi best) ∧ castOk g.dom b = true ∧
       near g iv1 = near g iv ∧ far g iv1 = far g iv ∧
       (strat = .linear → b = obj gi best ∧ iv1.pivot = none) ∧
       (strat = .binary → iv1.pivot = some b ∧ ∀ f, far g iv = some f → sg g f < sg g b) := by
-  have hbest : castOk g.dom (obj gi best) = true := hDom _ hI.feas.1
+  have hbest : castOk g.dom (obj gi best) = true := hG.castOk _ hI.feas.1
   cases strat with
   | linear =>
     refine ⟨iv, obj gi best, ?_, Int.le_refl _, hbest, rfl, rfl, fun _ => ⟨rfl, hI.piv rfl⟩, fun h => by cases h⟩
@@ -218,18 +239,18 @@ theorem cut_facts {strat : Strat} {iv : Interval} {best : M} {s : Solver M}
       exact (pivot_between g iv _ f hI.nearEq hf hlt).1
 
 /-- one iteration of the loop: no cast fails, the invariant is kept, progress is made -/
-theorem step_spec (hO : OracleSpec A obj o) {mx : Mixin} {strat : Strat} {extra : List Constraint}
+theorem step_spec (hO : OracleSpec A val o) {mx : Mixin} {strat : Strat} {extra : List Constraint}
     (hex : ex = effExtra mx extra)
-    (hDom : ∀ m, A m → castOk g.dom (obj gi m) = true)
+    (hG : GoalReads A val obj g gi)
     {iv : Interval} {best : M} {s : Solver M}
-    (hI : LInv A obj g gi base ex marks0 bad0 strat iv best s) (he : iv.empty = false) :
+    (hI : LInv A val obj g gi base ex marks0 bad0 strat iv best s) (he : iv.empty = false) :
     ∃ iv' best' s',
       (∀ n, searchLoop o obj mx strat g gi extra (n + 1) iv best s =
             searchLoop o obj mx strat g gi extra n iv' best' s') ∧
-      LInv A obj g gi base ex marks0 bad0 strat iv' best' s' ∧ Progress g iv iv' := by
-  obtain ⟨iv1, b, hcb, hbt, hcast, hn1, hf1, hlin, hbin⟩ := cut_facts hDom hI he
-  have hcc := check_cut (g := g) (gi := gi) (marks0 := marks0) (bad0 := bad0) hO mx strat extra hex g.dom
-    (obj gi best) b s hI.sinv hbt
+      LInv A val obj g gi base ex marks0 bad0 strat iv' best' s' ∧ Progress g iv iv' := by
+  obtain ⟨iv1, b, hcb, hbt, hcast, hn1, hf1, hlin, hbin⟩ := cut_facts hG hI he
+  have hcc := check_cut (g := g) (gi := gi) (marks0 := marks0) (bad0 := bad0) hO mx strat extra hex hG
+    (obj gi best) b s hI.sinv hbt hcast
   cases hr : checkProgress o mx strat extra (some (.atom ⟨gi, g.dom, strictCmp g, b⟩)) s with
   | mk r s1 =>
   rw [hr] at hcc
@@ -310,18 +331,18 @@ theorem step_spec (hO : OracleSpec A obj o) {mx : Mixin} {strat : Strat} {extra 
           exact ⟨_, hfar', by omega⟩
 
 /-- what the loop delivers when it stops -/
-def LoopPost (A : M → Prop) (obj : Nat → M → Int) (g : Goal) (gi : Nat) (base ex : List Constraint)
+def LoopPost (A : M → Prop) (val : Nat → M → Val) (obj : Nat → M → Int) (g : Goal) (gi : Nat) (base ex : List Constraint)
     (marks0 : List Nat) (bad0 : Bool) (r : Outcome M × Solver M) : Prop :=
   r.1 = .fuel ∨
-  ∃ b, r.1 = .done b ∧ Feas A obj base ex b ∧ (∀ m, Feas A obj base ex m → sg g (obj gi b) ≤ sg g (obj gi m)) ∧
-    ∃ t, SInv A obj g gi base ex marks0 bad0 t r.2
+  ∃ b, r.1 = .done b ∧ Feas A val base ex b ∧ (∀ m, Feas A val base ex m → sg g (obj gi b) ≤ sg g (obj gi m)) ∧
+    ∃ t, SInv A val obj g gi base ex marks0 bad0 t r.2
 
 /-- partial correctness of the loop, for every oracle and every amount of fuel -/
-theorem loop_correct (hO : OracleSpec A obj o) {mx : Mixin} {strat : Strat} {extra : List Constraint}
-    (hex : ex = effExtra mx extra) (hDom : ∀ m, A m → castOk g.dom (obj gi m) = true) :
+theorem loop_correct (hO : OracleSpec A val o) {mx : Mixin} {strat : Strat} {extra : List Constraint}
+    (hex : ex = effExtra mx extra) (hG : GoalReads A val obj g gi) :
     ∀ (n : Nat) (iv : Interval) (best : M) (s : Solver M),
-      LInv A obj g gi base ex marks0 bad0 strat iv best s →
-      LoopPost A obj g gi base ex marks0 bad0 (searchLoop o obj mx strat g gi extra n iv best s) := by
+      LInv A val obj g gi base ex marks0 bad0 strat iv best s →
+      LoopPost A val obj g gi base ex marks0 bad0 (searchLoop o obj mx strat g gi extra n iv best s) := by
   intro n
   induction n with
   | zero => intro iv best s _; exact Or.inl rfl
@@ -337,15 +358,15 @@ theorem loop_correct (hO : OracleSpec A obj o) {mx : Mixin} {strat : Strat} {ext
       have := hI.farBound f hf m hm
       omega
     | false =>
-      obtain ⟨iv', best', s', heq, hI', _⟩ := step_spec hO hex hDom hI he
+      obtain ⟨iv', best', s', heq, hI', _⟩ := step_spec hO hex hG hI he
       rw [heq n]
       exact ih iv' best' s' hI'
 
 /-- phase 2 of the termination argument: both bounds known -/
-theorem loop_terminates_bounded (hO : OracleSpec A obj o) {mx : Mixin} {strat : Strat} {extra : List Constraint}
-    (hex : ex = effExtra mx extra) (hDom : ∀ m, A m → castOk g.dom (obj gi m) = true) :
+theorem loop_terminates_bounded (hO : OracleSpec A val o) {mx : Mixin} {strat : Strat} {extra : List Constraint}
+    (hex : ex = effExtra mx extra) (hG : GoalReads A val obj g gi) :
     ∀ (k : Nat) (iv : Interval) (best : M) (s : Solver M) (nn f : Int),
-      LInv A obj g gi base ex marks0 bad0 strat iv best s →
+      LInv A val obj g gi base ex marks0 bad0 strat iv best s →
       near g iv = some nn → far g iv = some f → sg g nn - sg g f ≤ (k : Int) →
       ∀ n, n ≥ k + 1 → (searchLoop o obj mx strat g gi extra n iv best s).1 ≠ .fuel := by
   intro k
@@ -361,7 +382,7 @@ theorem loop_terminates_bounded (hO : OracleSpec A obj o) {mx : Mixin} {strat : 
     cases he : iv.empty with
     | true => rw [searchLoop]; simp [he]
     | false =>
-      obtain ⟨iv', best', s', heq, hI', n1, n2, hp1, hp2, _, hp4⟩ := step_spec hO hex hDom hI he
+      obtain ⟨iv', best', s', heq, hI', n1, n2, hp1, hp2, _, hp4⟩ := step_spec hO hex hG hI he
       rw [hf] at hp4
       obtain ⟨f', hf', hlt⟩ := hp4
       rw [hn] at hp1; cases hp1
@@ -369,11 +390,11 @@ theorem loop_terminates_bounded (hO : OracleSpec A obj o) {mx : Mixin} {strat : 
       exact ih iv' best' s' n2 f' hI' hp2 hf' (by omega) n' (by omega)
 
 /-- termination: if the optimum is attained the loop stops, whatever the oracle answers -/
-theorem loop_terminates (hO : OracleSpec A obj o) {mx : Mixin} {strat : Strat} {extra : List Constraint}
-    (hex : ex = effExtra mx extra) (hDom : ∀ m, A m → castOk g.dom (obj gi m) = true)
-    (mo : M) (hmo : ∀ m, Feas A obj base ex m → sg g (obj gi mo) ≤ sg g (obj gi m)) :
+theorem loop_terminates (hO : OracleSpec A val o) {mx : Mixin} {strat : Strat} {extra : List Constraint}
+    (hex : ex = effExtra mx extra) (hG : GoalReads A val obj g gi)
+    (mo : M) (hmo : ∀ m, Feas A val base ex m → sg g (obj gi mo) ≤ sg g (obj gi m)) :
     ∀ (k : Nat) (iv : Interval) (best : M) (s : Solver M),
-      LInv A obj g gi base ex marks0 bad0 strat iv best s →
+      LInv A val obj g gi base ex marks0 bad0 strat iv best s →
       sg g (obj gi best) - sg g (obj gi mo) ≤ (k : Int) →
       ∃ N, ∀ n, n ≥ N → (searchLoop o obj mx strat g gi extra n iv best s).1 ≠ .fuel := by
   intro k
@@ -382,11 +403,11 @@ theorem loop_terminates (hO : OracleSpec A obj o) {mx : Mixin} {strat : Strat} {
     intro iv best s hI hk
     cases hfar : far g iv with
     | some f =>
-      exact ⟨_, loop_terminates_bounded hO hex hDom (sg g (obj gi best) - sg g f).toNat iv best s _ f hI hI.nearEq hfar
+      exact ⟨_, loop_terminates_bounded hO hex hG (sg g (obj gi best) - sg g f).toNat iv best s _ f hI hI.nearEq hfar
         (by omega)⟩
     | none =>
       have he := empty_false_of_far_none g iv hfar
-      obtain ⟨iv', best', s', heq, hI', n1, n2, hp1, hp2, hp3, hp4⟩ := step_spec hO hex hDom hI he
+      obtain ⟨iv', best', s', heq, hI', n1, n2, hp1, hp2, hp3, hp4⟩ := step_spec hO hex hG hI he
       rw [hfar] at hp4
       rw [hI.nearEq] at hp1; cases hp1
       rw [hI'.nearEq] at hp2; cases hp2
@@ -396,17 +417,17 @@ theorem loop_terminates (hO : OracleSpec A obj o) {mx : Mixin} {strat : Strat} {
         intro n hge
         obtain ⟨n', rfl⟩ : ∃ n', n = n' + 1 := ⟨n - 1, by omega⟩
         rw [heq n']
-        exact loop_terminates_bounded hO hex hDom (sg g (obj gi best') - sg g f').toNat iv' best' s' _ f' hI' hI'.nearEq hf'
+        exact loop_terminates_bounded hO hex hG (sg g (obj gi best') - sg g f').toNat iv' best' s' _ f' hI' hI'.nearEq hf'
           (by omega) n' (by omega)
   | succ k ih =>
     intro iv best s hI hk
     cases hfar : far g iv with
     | some f =>
-      exact ⟨_, loop_terminates_bounded hO hex hDom (sg g (obj gi best) - sg g f).toNat iv best s _ f hI hI.nearEq hfar
+      exact ⟨_, loop_terminates_bounded hO hex hG (sg g (obj gi best) - sg g f).toNat iv best s _ f hI hI.nearEq hfar
         (by omega)⟩
     | none =>
       have he := empty_false_of_far_none g iv hfar
-      obtain ⟨iv', best', s', heq, hI', n1, n2, hp1, hp2, hp3, hp4⟩ := step_spec hO hex hDom hI he
+      obtain ⟨iv', best', s', heq, hI', n1, n2, hp1, hp2, hp3, hp4⟩ := step_spec hO hex hG hI he
       rw [hfar] at hp4
       rw [hI.nearEq] at hp1; cases hp1
       rw [hI'.nearEq] at hp2; cases hp2
@@ -421,7 +442,7 @@ theorem loop_terminates (hO : OracleSpec A obj o) {mx : Mixin} {strat : Strat} {
         intro n hge
         obtain ⟨n', rfl⟩ : ∃ n', n = n' + 1 := ⟨n - 1, by omega⟩
         rw [heq n']
-        exact loop_terminates_bounded hO hex hDom (sg g (obj gi best') - sg g f').toNat iv' best' s' _ f' hI' hI'.nearEq hf'
+        exact loop_terminates_bounded hO hex hG (sg g (obj gi best') - sg g f').toNat iv' best' s' _ f' hI' hI'.nearEq hf'
           (by omega) n' (by omega)
 
 end
